@@ -24,7 +24,37 @@ var assumeCommon = []string{
 	"a clean batch is evidence for the sampled seeds, not a proof",
 }
 
+var stubKernel = append([]string{
+	"Linux kernel: sockets (TCP/AF_UNIX/UDP), listeners, epoll LT/ET/ONESHOT, eventfd, descriptor table (verif/sim/kernel; rules in DESIGN.md 3.4)",
+	"peers (harness goroutines using kernel endpoints directly)",
+}, stubCommon...)
+
+var realCore = []string{"nbio.Engine, nbio.Conn, poller (epoll build), timer, taskpool, mempool, logging - all transformed real code", "real temp file as Sendfile source"}
+
+var assumeKernel = append([]string{
+	"the kernel model returns only results Linux can return: EAGAIN only when there is no room, a short count only together with a later write-space wake-up, EINTR on writes only in LT/ONESHOT runs (DESIGN.md 3.4)",
+}, assumeCommon...)
+
 var specs = map[string]spec{
+	"C01": {
+		World: "core", Level: "exploration", QuickS: 40, ThoroughS: 900,
+		Rule: "cases = (engine mode LT/ET/ONESHOT x sync/async read x transport tcp/unix x pollers, kernel send capacity 1B..256KiB, low-water mark, in-flight delivery, fault rates, 1-10 Write/Writev/Sendfile operations from goroutines and from open/data callbacks or 2-3 concurrent writers with record framing, peer read pacing, schedule) from the seed; non-trivial = a backlog formed in nbio's queue and >= 1 kernel fault (short write / EAGAIN / EINTR / withheld readiness) fired; distinct = distinct context-switch sequence hash",
+		Real: realCore, Stub: stubKernel,
+		Assumptions: append([]string{"a call that fails with a fatal error may leave a prefix of its own input as the last bytes of the stream; nothing else is tolerated",
+			"bytes missing at quiescence while nbio's queue is non-empty are attributed to C04 (stalled), with an empty queue to C01 (lost)"}, assumeKernel...),
+	},
+	"C04": {
+		World: "core", Level: "exploration", QuickS: 40, ThoroughS: 900,
+		Rule: "same scenario as C01 biased to backlogs (peer stalls until the writers are done, tiny send capacity, writes from callbacks); after the last operation all faults stop, the scheduler is fair and the peer keeps reading: bounded liveness = at quiescence every accepted byte has arrived; non-trivial = a backlog existed; distinct = distinct context-switch sequence hash",
+		Real: realCore, Stub: stubKernel,
+		Assumptions: append([]string{"liveness is judged only in the fair phase (no faults, round-robin scheduling, time advances only at quiescence) and only for connections that are still open"}, assumeKernel...),
+	},
+	"C17": {
+		World: "core", Level: "exploration", QuickS: 40, ThoroughS: 900,
+		Rule: "same scenario as C01 with MaxWriteBufferSize M in 1..256KiB and write sizes placed around M and around the kernel capacity; oracle on the true backlog (accepted buffer bytes minus bytes the kernel model took): accepted => held <= M, refused => backlog+n > M, internal counter == true backlog whenever the connection mutex is free; non-trivial = a write landed within +-1 of the bound and a backlog formed",
+		Real: realCore, Stub: stubKernel,
+		Assumptions: append([]string{"Sendfile ranges are not 'held' bytes and are excluded from the backlog", "the internal counter is read by reflection on the field name 'left'; if it does not resolve the drift oracle is skipped"}, assumeKernel...),
+	},
 	"C19": {
 		World: "exec", Level: "exploration", QuickS: 25, ThoroughS: 600,
 		Rule: "cases = (pool kind in {pool, custom caller, io, async}, max, queue, 1-4 submitters x 1-16 tasks with yields/sleeps/panics, optional Stop racing the submissions, schedule strategy+seed) drawn from the seed; a run is non-trivial when submissions exceeded max+queue or Stop raced a submission (pools) or >= 2 producers overlapped (Async); distinct = distinct hash of the sequence of context switches",
